@@ -10,8 +10,9 @@ import random
 import re
 
 CLASSES = {
-    "torn": ["zero", "truncate", "tail", "dup_block", "open_construct", "open_construct"],
-    "corrupt": ["flip", "bad_utf8", "nul", "bom8", "bom16", "crlf", "mixed_eol", "lone_cr", "ws_only", "binary", "escape_in_string"],
+    "torn": ["zero", "truncate", "tail", "dup_block", "open_construct", "open_construct", "fragment_only"],
+    "corrupt": ["flip", "bad_utf8", "nul", "bom8", "bom16", "crlf", "mixed_eol", "lone_cr", "ws_only", "binary", "escape_in_string",
+                "odd_separators", "odd_separators", "non_ascii"],
     "grammar": ["del_line", "dup_line", "del_token", "dup_token", "unbalance", "drop_close", "dedent",
                 "swap_ext", "shebang", "del_char", "dup_char", "del_punct", "stray_line", "truncate_line", "num_mangle", "num_mangle", "run_small", "run_small"],
     "blowup": ["nest", "chain", "long_line", "many_funcs", "deep_parens", "deep_list", "long_run", "long_run", "huge_number"],
@@ -53,6 +54,12 @@ def draw_fault(t, data: bytes, lang: str, allow_blowup: bool = True, force_blowu
         p = [t.draw(P, "fault.pos")]
     elif kind == "open_construct":
         p = [t.draw(8, "fault.which"), t.draw(3, "fault.where"), t.draw(P, "fault.pos")]
+    elif kind == "odd_separators":
+        p = [t.draw(P, "fault.pos"), t.draw(8, "fault.sep"), 1 + t.draw(4, "fault.cnt")]
+    elif kind == "non_ascii":
+        p = [t.draw(P, "fault.pos"), t.draw(6, "fault.what")]
+    elif kind == "fragment_only":
+        p = [t.draw(14, "fault.frag")]
     elif kind == "num_mangle":
         p = [t.draw(P, "fault.pos"), t.draw(12, "fault.how")]
     elif kind == "stray_line":
@@ -161,6 +168,37 @@ def apply(f: dict, data: bytes, lang: str) -> bytes:
             return data
         i = min(len(data) - 1, _pos(data, p[0]))
         return data[:i] + data[i + 1:] if k == "del_char" else data[:i] + data[i:i + 1] + data[i:]
+    if k == "odd_separators":
+        # characters that str.splitlines() treats as line breaks but "\n"-splitting and most parsers do not
+        sep = [b"\x0c", b"\x0b", "\u2028".encode(), "\u2029".encode(), "\u0085".encode(), b"\x1c", b"\x1d", b"\r"][p[1] % 8]
+        ls = _lines(data)
+        if not ls:
+            return sep
+        start = (p[0] * len(ls)) >> 20
+        for j in range(start, min(len(ls), start + p[2])):
+            mid = len(ls[j]) // 2
+            cut = ls[j][:mid].decode("utf-8", "ignore").encode()      # never split inside a multi-byte character
+            ls[j] = (cut + sep + ls[j][len(cut):]) if j % 2 else (ls[j] + sep)
+        return b"\n".join(ls)
+    if k == "non_ascii":
+        # multi-byte text where byte offsets and character offsets differ (comments, strings, identifiers)
+        what = ["# größe ✓ 日本語 naïve ☃", "x = 'naïve ☃ 😀'", "größe = 1", "déjà_vu = 'é' * 3", "s = '\u00e9\u0301 ǅ ß'", "# 😀😀😀😀 ✓✓✓"][p[1] % 6]
+        if lang in ("typescript", "javascript"):
+            what = what.replace("# ", "// ").replace("x = ", "const x = ").replace("größe = 1", "const größe = 1;").replace("déjà_vu = ", "const déjà_vu = ").replace("s = ", "const s = ")
+        elif lang == "rust":
+            what = what.replace("# ", "// ").replace("x = 'naïve ☃ 😀'", 'const X: &str = "naïve ☃ 😀";').replace("größe = 1", "const GRÖSSE: i32 = 1;").replace("déjà_vu = 'é' * 3", 'const DÉJÀ: &str = "é";').replace("s = '", 'const S: &str = "').rstrip("'") 
+        ls = _lines(data)
+        i = (p[0] * (len(ls) + 1)) >> 20
+        ls[i:i] = [what.encode("utf-8")]
+        return b"\n".join(ls)
+    if k == "fragment_only":
+        py = [b"# only a comment", b'"""only a docstring"""', b"@decorator", b"def f():", b"class A:", b"if x:", b"x =", b"lambda:", b"@a\n@b\n",
+              b"async def g(", b"try:", b"with open(p) as f:", b"match x:\n    case", b"def h(a, /, *, b): ..."]
+        ts = [b"// only a comment", b"/** only jsdoc */", b"@Component()", b"function f() {", b"class A {", b"if (x) {", b"const x =", b"() =>",
+              b"export default", b"import {", b"try {", b"switch (x) { case", b"`template ${", b"type T ="]
+        rs = [b"// only a comment", b"//! inner doc", b"#[derive(Debug)]", b"fn f() {", b"impl A {", b"if x {", b"let x =", b"|| ",
+              b"pub use", b"use std::{", b"match x {", b"struct S<", b"mod m;", b"unsafe {"]
+        return (py if lang == "python" else rs if lang == "rust" else ts)[p[0] % 14] + b"\n"
     if k == "num_mangle":
         # damage inside one numeric literal: what a lost or doubled keystroke does to a number
         nums = list(re.finditer(rb"(?<![A-Za-z_0-9.])\d[\d_]*(?:\.\d+)?(?:[eE][+-]?\d+)?", data))
